@@ -27,7 +27,7 @@
 (* (C16: DocumentCount means "carries the field" for built and "has a term *)
 (* in the field" for merged segments).                                     *)
 (***************************************************************************)
-EXTENDS Integers, Sequences, FiniteSets, TLC
+EXTENDS Integers, Sequences, FiniteSets, TLC, SequencesExt
 
 CONSTANTS FieldBytes,  \* function: field name -> its bytes (TLC cannot order strings)
           NormOf       \* function: <<field name, total length>> -> norm value
@@ -54,13 +54,10 @@ RECURSIVE FlattenFrom(_, _)
 FlattenFrom(ss, i) == IF i > Len(ss) THEN <<>> ELSE ss[i] \o FlattenFrom(ss, i + 1)
 Flatten(ss) == FlattenFrom(ss, 1)             \* Seq(Seq(X)) -> Seq(X)
 
-Range(s) == {s[i] : i \in DOMAIN s}
+RangeOf(s) == {s[i] : i \in DOMAIN s}
 
 \* sort a finite set into a sequence under a strict total order
-SetToSorted(S, Less(_, _)) ==
-    LET n == Cardinality(S)
-        rank(x) == Cardinality({y \in S : Less(y, x)})
-    IN [i \in 1..n |-> CHOOSE x \in S : rank(x) = i - 1]
+SetToSorted(S, Less(_, _)) == SetToSortSeq(S, Less)    \* SequencesExt: SortSeq(SetToSeq(S), Less)
 
 IsPrefixOf(p, t) == Len(p) <= Len(t) /\ \A i \in 1..Len(p) : p[i] = t[i]
 
@@ -150,9 +147,11 @@ PostingOf(c, n, f, t) ==
 
 DocsWith(c, f, t) == {n \in 0..(Len(c.docs) - 1) : HasTerm(c.docs[n + 1], f, t)}
 
-\* the full postings list of (f, t): ascending document order
+DocNumbers(c) == [i \in 1..Len(c.docs) |-> i - 1]
+
+\* the full postings list of (f, t): ascending document order (linear in the number of documents)
 Postings(c, f, t) ==
-    LET ds == SetToSorted(DocsWith(c, f, t), <) IN
+    LET ds == SelectSeq(DocNumbers(c), LAMBDA n : HasTerm(c.docs[n + 1], f, t)) IN
     [i \in DOMAIN ds |-> PostingOf(c, ds[i], f, t)]
 
 -----------------------------------------------------------------------------
@@ -160,7 +159,7 @@ Postings(c, f, t) ==
 
 Count(c) == Len(c.docs)
 
-KnownField(c, f) == f \in Range(c.fields)
+KnownField(c, f) == f \in RangeOf(c.fields)
 
 TermSet(c, f) == UNION {TermsOfDoc(c.docs[d], f) : d \in DOMAIN c.docs}
 
@@ -170,7 +169,7 @@ TermCount(c, f, t) == Cardinality(DocsWith(c, f, t))
 AutAccepts(aut, t) ==
     CASE aut.kind = "all"    -> TRUE
       [] aut.kind = "prefix" -> IsPrefixOf(aut.p, t)
-      [] aut.kind = "oneof"  -> t \in Range(aut.terms)
+      [] aut.kind = "oneof"  -> t \in RangeOf(aut.terms)
       [] aut.kind = "none"   -> FALSE
 
 \* bounds are [kind |-> "nil"] or [kind |-> "key", key |-> bytes]
@@ -246,7 +245,7 @@ ValidDrops(contents, drops) ==
     /\ \A i \in DOMAIN contents : drops[i] \subseteq 0..(Len(contents[i].docs) - 1)
 
 SurvivorsOf(c, drop) ==
-    LET idx == SetToSorted({n \in 0..(Len(c.docs) - 1) : n \notin drop}, <) IN
+    LET idx == SelectSeq(DocNumbers(c), LAMBDA n : n \notin drop) IN
     [k \in DOMAIN idx |-> c.docs[idx[k] + 1]]
 
 NumSurvivors(c, drop) == Len(c.docs) - Cardinality(drop)
@@ -261,11 +260,11 @@ DocNumMap(contents, drops) ==
         [n1 \in 1..Len(contents[i].docs) |->
             IF (n1 - 1) \in drops[i] THEN Dropped
             ELSE BaseOf(contents, drops, i)
-                 + Cardinality({m \in 0..(n1 - 2) : m \notin drops[i]})]]
+                 + (n1 - 1) - Cardinality({m \in drops[i] : m < n1 - 1})]]
 
 Merge(contents, drops) ==
     [docs   |-> Flatten([i \in DOMAIN contents |-> SurvivorsOf(contents[i], drops[i])]),
-     fields |-> FieldList(UNION {Range(contents[i].fields) : i \in DOMAIN contents}),
+     fields |-> FieldList(UNION {RangeOf(contents[i].fields) : i \in DOMAIN contents}),
      origin |-> "merged"]
 
 \* two contents that every read API except the C16 origin clause must not distinguish
